@@ -1244,6 +1244,7 @@ PROP = Property(
     id="C14",
     title="Derived attributes compute their defining expression and go with their inputs",
     theorems=["C14.binary_compute_elementwise", "C14.expr_eval", "C14.link_compute_elementwise",
+              "C14.getitem_elementwise", "C14.getitem_view_commutes",
               "C14.remove_closure", "C14.depClosure_iff_reach", "C14.remove_absent", "C14.remove_spec",
               "C14.update_id_preserves_order", "C14.update_id_preserves_values",
               "C14.update_id_breaks_dependents"],
